@@ -17,7 +17,9 @@ NOTES = ("Static analysis only: no registered check executes gc-arena code. Ever
          "working tree through the compiler (facts cached under /verif/.cache keyed by a content hash of the sources "
          "and of the driver). See DESIGN.md.")
 
-NOT_TS = ("abstract interpretation of the compiler's MIR on a finite typestate domain (transition tables for every "
+NOT_CLAIMED = {}
+
+TS = ("abstract interpretation of the compiler's MIR on a finite typestate domain (transition tables for every "
       "abstract pre-state) + per-object typestate automaton + hand-written spec oracle")
 
 def _c(tech, text):
